@@ -418,13 +418,13 @@ func TestVerif_C04(t *testing.T) {
 		return map[string]any{"pool": heads, "steps": ops, "goroutines": c.Goroutines}
 	}
 	if vfOnlySub("hist") {
-		vfRun(t, vfSub[c04Case]{Prop: "C04", Name: "hist", Checks: vfN(2500, 200000), Gen: c04Gen(false), Check: c04Check, Sample: sample})
+		vfRun(t, vfSub[c04Case]{Prop: "C04", Name: "hist", Checks: vfN(2500, 64000), Gen: c04Gen(false), Check: c04Check, Sample: sample})
 	}
 	if t.Failed() {
 		return
 	}
 	if vfOnlySub("conc") {
-		vfRun(t, vfSub[c04Case]{Prop: "C04", Name: "conc", Checks: vfN(800, 60000), Gen: c04Gen(true), Check: c04Check, Sample: sample})
+		vfRun(t, vfSub[c04Case]{Prop: "C04", Name: "conc", Checks: vfN(800, 24000), Gen: c04Gen(true), Check: c04Check, Sample: sample})
 	}
 	if t.Failed() {
 		return
